@@ -393,16 +393,17 @@ theorem C03_symbol (E : Env) (c : Sls) (n : Node) (s : Str) (hn : renderNode E c
 
 set_option maxRecDepth 100000 in
 /-- table facts (kernel-evaluated on the generated database): `~` ↦ U+00A0 (no-break space), `--` ↦ – (U+2013),
-    `---` ↦ — (U+2014), the double quotes ↦ “ ” (U+201C, U+201D), `&` ↦ three spaces, the inverted marks ↦ ¡ ¿ -/
+    `---` ↦ — (U+2014), the double quotes ↦ “ ” (U+201C, U+201D), `&` ↦ three spaces, the inverted marks ↦ ¡ ¿ (the replacement text only: whether the spec
+    class carries a `discard` attribute is a fact about the library version, cf. F38) -/
 theorem C03_table_specials :
-    lookupFirst ['~'] Gen.defaultTextDb.specials = some ⟨false, false, .lit [Char.ofNat 0xA0]⟩ ∧
-    lookupFirst ['-', '-'] Gen.defaultTextDb.specials = some ⟨false, false, .lit [Char.ofNat 0x2013]⟩ ∧
-    lookupFirst ['-', '-', '-'] Gen.defaultTextDb.specials = some ⟨false, false, .lit [Char.ofNat 0x2014]⟩ ∧
-    lookupFirst ['`', '`'] Gen.defaultTextDb.specials = some ⟨false, false, .lit [Char.ofNat 0x201C]⟩ ∧
-    lookupFirst ['\'', '\''] Gen.defaultTextDb.specials = some ⟨false, false, .lit [Char.ofNat 0x201D]⟩ ∧
-    lookupFirst ['&'] Gen.defaultTextDb.specials = some ⟨false, false, .lit [' ', ' ', ' ']⟩ ∧
-    lookupFirst ['!', '`'] Gen.defaultTextDb.specials = some ⟨false, false, .lit [Char.ofNat 0xA1]⟩ ∧
-    lookupFirst ['?', '`'] Gen.defaultTextDb.specials = some ⟨false, false, .lit [Char.ofNat 0xBF]⟩ ∧
+    (lookupFirst ['~'] Gen.defaultTextDb.specials).map (·.repl) = some (.lit [Char.ofNat 0xA0]) ∧
+    (lookupFirst ['-', '-'] Gen.defaultTextDb.specials).map (·.repl) = some (.lit [Char.ofNat 0x2013]) ∧
+    (lookupFirst ['-', '-', '-'] Gen.defaultTextDb.specials).map (·.repl) = some (.lit [Char.ofNat 0x2014]) ∧
+    (lookupFirst ['`', '`'] Gen.defaultTextDb.specials).map (·.repl) = some (.lit [Char.ofNat 0x201C]) ∧
+    (lookupFirst ['\'', '\''] Gen.defaultTextDb.specials).map (·.repl) = some (.lit [Char.ofNat 0x201D]) ∧
+    (lookupFirst ['&'] Gen.defaultTextDb.specials).map (·.repl) = some (.lit [' ', ' ', ' ']) ∧
+    (lookupFirst ['!', '`'] Gen.defaultTextDb.specials).map (·.repl) = some (.lit [Char.ofNat 0xA1]) ∧
+    (lookupFirst ['?', '`'] Gen.defaultTextDb.specials).map (·.repl) = some (.lit [Char.ofNat 0xBF]) ∧
     lookupFirst ['\n', '\n'] Gen.defaultTextDb.specials = none := by
   decide +kernel
 
@@ -853,8 +854,14 @@ set_option maxRecDepth 100000 in
 example : renderNode exEnv (parseSls .macros) exAlpha = R.pure [Char.ofNat 0x3B1] :=
   C03_symbol_macro exEnv _ 0 7 {} _ _ _ ⟨true, true, .lit [Char.ofNat 0x3B1]⟩ _ C03_table_symbols.2.1 rfl (Or.inl (by decide))
 set_option maxRecDepth 100000 in
-example : renderNode exEnv (parseSls .macros) (.specials 0 1 {} ['~'] (some [])) = R.pure [Char.ofNat 0xA0] :=
-  C03_symbol_specials exEnv _ 0 1 {} _ _ ⟨false, false, .lit [Char.ofNat 0xA0]⟩ _ C03_table_specials.1 rfl (by decide)
+example : renderNode exEnv (parseSls .macros) (.specials 0 1 {} ['~'] (some [])) = R.pure [Char.ofNat 0xA0] := by
+  have h := C03_table_specials.1
+  cases hl : lookupFirst ['~'] Gen.defaultTextDb.specials with
+  | none => rw [hl] at h; cases h
+  | some sp =>
+    rw [hl] at h
+    simp only [Option.map_some, Option.some.injEq] at h
+    exact C03_symbol_specials exEnv _ 0 1 {} _ _ sp _ hl h (by decide)
 
 /-- `C03_group_transparent` / `C03_group_braced` on `{b}` -/
 example : renderNode exEnv (parseSls .macros) exGrp = renderBody exEnv (parseSls .macros) (some [.chars 8 9 {} ['b']]) :=
